@@ -362,6 +362,8 @@ func runCase() {
 		caseConc(res, idx, dir, seed, tier)
 	case "crash":
 		caseCrash(res, idx, dir, seed, tier)
+	case "fault":
+		caseFault(res, idx, dir, seed, tier)
 	}
 	seam.Restore()
 	data, _ := json.Marshal(res)
